@@ -7,6 +7,7 @@ from gbasis.integrals._two_elec_int import (
 )
 from gbasis.integrals.point_charge import PointChargeIntegral
 import numpy as np
+from types import SimpleNamespace
 
 
 class ElectronRepulsionIntegral(BaseFourIndexSymmetric):
@@ -155,6 +156,20 @@ class ElectronRepulsionIntegral(BaseFourIndexSymmetric):
         if not isinstance(cont_four, GeneralizedContractionShell):
             raise TypeError("`cont_four` must be a `GeneralizedContractionShell` instance.")
 
+        return cls._construct_array_primitives(cont_one, cont_two, cont_three, cont_four)
+
+    # natural logarithm of the largest estimated amplification of rounding errors that is accepted
+    # before the primitives of a shell are treated in separate groups
+    _max_log_amplification = np.log(1e8)
+
+    @classmethod
+    def _construct_array_primitives(cls, cont_one, cont_two, cont_three, cont_four):
+        """Return the integrals of `construct_array_contraction` for (subsets of primitives of) shells.
+
+        The arguments only need the attributes `coord`, `angmom`, `angmom_components_cart`, `exps`
+        and `coeffs`.
+
+        """
         # The electron-transfer step multiplies rounding errors by (bra exponents / ket exponents)
         # once per unit of angular momentum of the ket. Use as bra the pair for which this
         # amplification is smaller, and un-swap the axes of the result at the end.
@@ -162,9 +177,34 @@ class ElectronRepulsionIntegral(BaseFourIndexSymmetric):
         angmom_ket = cont_three.angmom + cont_four.angmom
         exps_bra = cont_one.exps[:, None] + cont_two.exps[None, :]
         exps_ket = cont_three.exps[:, None] + cont_four.exps[None, :]
-        swap_bra_ket = angmom_bra * np.log(exps_ket.max() / exps_bra.min()) < angmom_ket * np.log(
-            exps_bra.max() / exps_ket.min()
-        )
+        loss_swapped = angmom_bra * np.log(exps_ket.max() / exps_bra.min())
+        loss_as_given = angmom_ket * np.log(exps_bra.max() / exps_ket.min())
+        swap_bra_ket = loss_swapped < loss_as_given
+        # When the primitives of a shell span a wide range of exponents, some combinations of
+        # primitives lose digits in either orientation. The integrals are linear in the contraction
+        # coefficients: treat the tight and the diffuse primitives of the shell with the widest range
+        # separately (each part chooses its own orientation) and add the results.
+        # (Empirically, the recursions lose about one more e-fold per unit of angular momentum.)
+        loss = min(loss_swapped, loss_as_given) + angmom_bra + angmom_ket
+        if loss > cls._max_log_amplification:
+            shells = [cont_one, cont_two, cont_three, cont_four]
+            widest = np.argmax([shell.exps.max() / shell.exps.min() for shell in shells])
+            cont = shells[widest]
+            exps = cont.exps
+            if exps.max() > exps.min():
+                order = np.argsort(exps)
+                cut = np.argmax(np.diff(np.log(exps[order]))) + 1
+                integrals = 0.0
+                for keep in (order[:cut], order[cut:]):
+                    shells[widest] = SimpleNamespace(
+                        coord=cont.coord,
+                        angmom=cont.angmom,
+                        angmom_components_cart=cont.angmom_components_cart,
+                        exps=cont.exps[np.sort(keep)],
+                        coeffs=cont.coeffs[np.sort(keep)],
+                    )
+                    integrals = integrals + cls._construct_array_primitives(*shells)
+                return integrals
         if swap_bra_ket:
             cont_one, cont_two, cont_three, cont_four = cont_three, cont_four, cont_one, cont_two
         # Within each pair the angular momentum is built up on the first shell and then transferred to
